@@ -463,6 +463,9 @@ func cmdCheck() int {
 					usesUF = true
 				}
 			}
+			if h.Opts.Backend == "nra" {
+				usesUF = true // abstract-field harness: the native model is a rational stand-in, not the solver's field
+			}
 			if f.Status == "not-reproduced" && usesUF {
 				// glue-level harness over uninterpreted primitives: the solver's model fixes values of the
 				// uninterpreted functions, which the natively compiled primitives do not take; the
@@ -582,7 +585,10 @@ func runHarness(h harnessDecl, fn *ssa.Function, prog *ssa.Program) (rep *Harnes
 			continue
 		}
 		if sf := sp.Func(sd.Func); sf != nil {
-			r.stubFns[sd.Target] = sf
+			// several packages may provide a stub for the same target: the harness's own package wins
+			if _, have := r.stubFns[sd.Target]; !have || sd.RelDir == h.RelDir {
+				r.stubFns[sd.Target] = sf
+			}
 		} else {
 			fmt.Fprintf(os.Stderr, "warning: stub function %s not found in %s\n", sd.Func, sd.RelDir)
 		}
